@@ -3,14 +3,18 @@ import json
 from harness.common import Check
 from harness import gens as G
 from harness import lie
-from harness.c01 import impl, check_star_tie, signature  # noqa: F401  (impl is looked up by the worker)
+from harness.c01 import impl, check_star_tie, signature, history_cases  # noqa: F401  (impl is looked up by the worker)
 
 
 def main():
     ck = Check("C09")
     if ck.replay:
         rp = json.load(open(ck.replay)); ck.build()
-        r = ck.impl("c09", [{"op": "classify", "gens": rp["gens"]}])[0]
+        if str(rp.get("kind", "")).startswith("history:"):
+            h = json.loads(rp["kind"][len("history:"):]); print("history:", h)
+            r = ck.impl("c09", [dict(h, op="history")])[0]["stages"][-1]
+        else:
+            r = ck.impl("c09", [{"op": "classify", "gens": rp["gens"]}])[0]
         a = ck.oracle(["lieinv %d %s" % (rp["n"], " ".join(rp["gens"]))])[0]
         print("implementation: dim", r.get("dim"), "name", r.get("algebra"), "| closure invariants:", a)
         return
@@ -26,6 +30,9 @@ def main():
         cases += G.collections(ck.rng, 12000, 3, 5) + G.collections(ck.rng, 3000, 6, 7) + G.collections(ck.rng, 200, 8, 8)
     cases.append(("star", 5, ["XIIII", "ZIIII", "ZZIII", "ZIZII", "ZIIZI", "ZIIIZ", "ZZZZZ"]))
     res = ck.impl("c09", [{"op": "classify", "gens": g} for _, _, g in cases], per_case_s=120)
+    hc, hr = history_cases(ck, 250 if ck.quick else 2500)
+    cases += hc; res += hr
+    dist["history_stages"] = len(hc)
     ans = ck.oracle(["lieinv %d %s" % (n, " ".join(g)) for _, n, g in cases])
     nt = set()
     for (kind, n, g), r, a in zip(cases, res, ans):
@@ -46,7 +53,7 @@ def main():
             why = "get_dla_dim() = %r but the reported name %s has dimension %d" % (r["dim"], r["algebra"], nd)
         if why:
             key = signature(r["morphs"]) if (nd == r["dim"]) else None
-            ck.fail(key, "n=%d generators %s: %s" % (n, g, why), {"n": n, "gens": g, "dim": r["dim"], "algebra": r["algebra"], "closure_invariants": a, "why": why})
+            ck.fail(key, "n=%d generators %s: %s" % (n, g, why), {"n": n, "gens": g, "kind": kind, "dim": r["dim"], "algebra": r["algebra"], "closure_invariants": a, "why": why})
     ck.cov["evaluations"] = len(cases) + dist["synthetic_graph_lists"]
     ck.cov["distinct_nontrivial"] = len(nt)
     ck.cov["rule"] = ("same collection streams as C01; non-trivial = distinct generator set whose closure is larger than the set; "
